@@ -232,6 +232,9 @@ func (r *Rec) KnownInline(sig, msg string) bool {
 	return true
 }
 
+// Race reports whether this process is the -race build (fewer cases: the detector slows the engine down).
+func (r *Rec) Race() bool { return os.Getenv("VERIF_RACE") != "" }
+
 // Quick reports whether this is the quick tier.
 func (r *Rec) Quick() bool { return r.Tier != "thorough" }
 
